@@ -789,6 +789,17 @@ func (g *progGen) expr(t *ty, d int) string {
 
 func typedOperandParen(s string) string { return "(" + s + ")" }
 
+// condExpr is an if / for condition: usually of type bool, sometimes of the named boolean type B
+// (a condition may be of any boolean type).
+func (g *progGen) condExpr(d int) string {
+	t := g.u.by["bool"]
+	if g.n("namedboolcond", 0, 7) == 0 {
+		t = g.u.by["B"]
+		g.feat("named-bool-condition")
+	}
+	return g.hdr(g.expr(t, d), t)
+}
+
 // hdr parenthesises an expression used in a statement header if it contains a composite literal.
 func (g *progGen) hdr(e string, t *ty) string {
 	if strings.Contains(e, "{") {
@@ -1379,11 +1390,11 @@ func (g *progGen) stmt(nest int) {
 			g.pop()
 			return
 		}
-		g.line("if %s {", g.hdr(g.expr(g.u.by["bool"], d), g.u.by["bool"]))
+		g.line("if %s {", g.condExpr(d))
 		g.block(nest-1, nb())
 		if k == "ifelse" {
 			if g.chance("elseif", 1, 2) {
-				g.line("} else if %s {", g.hdr(g.expr(g.u.by["bool"], d), g.u.by["bool"]))
+				g.line("} else if %s {", g.condExpr(d))
 				g.block(nest-1, nb())
 			}
 			g.line("} else {")
@@ -1403,7 +1414,7 @@ func (g *progGen) stmt(nest int) {
 		g.line("}")
 		g.pop()
 	case "forcond":
-		g.line("for %s {", g.hdr(g.expr(g.u.by["bool"], d), g.u.by["bool"]))
+		g.line("for %s {", g.condExpr(d))
 		g.loops++
 		g.breakOK++
 		g.block(nest-1, nb())
@@ -1623,7 +1634,7 @@ func (g *progGen) stmt(nest int) {
 	case "labeled":
 		l := g.fresh("L")
 		g.line("%s:", l)
-		g.line("for %s {", g.hdr(g.expr(g.u.by["bool"], d), g.u.by["bool"]))
+		g.line("for %s {", g.condExpr(d))
 		g.labels = append(g.labels, l)
 		g.loops++
 		g.breakOK++
@@ -1647,7 +1658,7 @@ func (g *progGen) stmt(nest int) {
 	case "goto":
 		l := g.fresh("G")
 		g.line("%s:", l)
-		g.line("if %s {", g.hdr(g.expr(g.u.by["bool"], d), g.u.by["bool"]))
+		g.line("if %s {", g.condExpr(d))
 		g.line("\tgoto %s", l)
 		g.line("}")
 	case "labeledbreak":
